@@ -335,6 +335,7 @@ type RunCfg struct {
 type SharedEnv struct {
 	Eng *engine.GruleEngine
 	DC  ast.IDataContext
+	px  *proxyCtx // the one object the engine sees as data context
 }
 
 // RunResult is everything observed in one engine call.
@@ -495,6 +496,14 @@ func Run(kb *ast.KnowledgeBase, prog *Program, st State, cfg RunCfg) *RunResult 
 		rec.limit = int(cfg.MaxCycle) + 2
 	}
 	px := &proxyCtx{IDataContext: dc, rec: rec}
+	if cfg.Shared != nil {
+		if cfg.Shared.px != nil && cfg.Shared.px.IDataContext == dc {
+			px = cfg.Shared.px
+			px.rec = rec
+		} else {
+			cfg.Shared.px = px
+		}
+	}
 	ctx := cfg.Ctx
 	if ctx == nil {
 		ctx = context.Background()
